@@ -241,7 +241,12 @@ func genMethods(t *rapid.T, avoid map[string]string, newOnly bool, trace bool) [
 		n = len(pool)
 	}
 	perm := rapid.Permutation(pool).Draw(t, "methods")
-	return perm[:n]
+	ms := perm[:n]
+	if rapid.IntRange(0, 15).Draw(t, "repeatMethod") == 0 {
+		// a method named twice in one call: must be refused as a whole
+		ms = append(append([]string{}, ms...), ms[rapid.IntRange(0, len(ms)-1).Draw(t, "repeatIdx")])
+	}
+	return ms
 }
 
 // tracker is the generation-time approximation of the model, used only to bias
@@ -272,7 +277,15 @@ func (g *tracker) accept(p string, methods []string) bool {
 
 // GenOps draws a history of n steps over the pool.
 func GenOps(t *rapid.T, cfg pat.Cfg, pool []string, n int, o GenOpts) []Op {
+	ops, _, _ := GenOpsT(t, cfg, pool, n, o)
+	return ops
+}
+
+// GenOpsT also returns what the generator believes is live at the end and which
+// patterns it registered at some point (both only approximate the real router).
+func GenOpsT(t *rapid.T, cfg pat.Cfg, pool []string, n int, o GenOpts) ([]Op, []string, []string) {
 	g := &tracker{tb: ref.NewTable(o.Trace), icpt: cfg.Icpt}
+	ever := map[string]bool{}
 	var ops []Op
 	via := func(op *Op, p string) {
 		if !o.Facades {
@@ -302,6 +315,7 @@ func GenOps(t *rapid.T, cfg pat.Cfg, pool []string, n int, o GenOpts) []Op {
 			via(&op, p)
 			if g.accept(p, op.Methods) {
 				g.tb.Handle(p, "x", op.Methods)
+				ever[p] = true
 			}
 			ops = append(ops, op)
 		case k < 10:
@@ -314,6 +328,7 @@ func GenOps(t *rapid.T, cfg pat.Cfg, pool []string, n int, o GenOpts) []Op {
 			for _, p := range op.Patterns {
 				if g.accept(p, op.Methods) {
 					g.tb.Handle(p, "x", op.Methods)
+					ever[p] = true
 				}
 			}
 			ops = append(ops, op)
@@ -362,7 +377,12 @@ func GenOps(t *rapid.T, cfg pat.Cfg, pool []string, n int, o GenOpts) []Op {
 			ops = append(ops, op)
 		}
 	}
-	return ops
+	var everL []string
+	for p := range ever {
+		everL = append(everL, p)
+	}
+	sort.Strings(everL)
+	return ops, g.tb.Live(), everL
 }
 
 // Siblings reports, for pattern p among the live patterns, whether another live
